@@ -18,6 +18,8 @@ def replay(ob):
         return HEAD + "main(['initializer'])\n"
     if "split_to_sequence" in n:
         return HEAD + "main(['split'])\n"
+    if "ScatterAllStatic.check_never_raises" in n:
+        return HEAD + "main(['scatter_symbolic_dim'])\n"
     if "rewrite_never_raises" in n:
         return HEAD + "main(['clip_no_type'])\n"
     if "existing_initializer" in n:
